@@ -51,15 +51,20 @@ Definition sx_event (e : event) : sx :=
   | EvPong i => SL [SN 6; SN i]
   end.
 
-(* op: (0 kind hs he rs re budget) | (1 lkind) | (2 id typ shape) | (3 id) *)
-Definition op_of (s : sx) : op :=
+(* a stanza delivered from inside a send: (id typ shape) *)
+Definition ndel_of (s : sx) : ndel :=
+  mkndel (sx_get_n (sx_nth s 0)) (ityp_of (sx_get_n (sx_nth s 1))) (shape_of_n (sx_get_n (sx_nth s 2))).
+
+(* op: (0 kind hs he rs re budget (sync ...)) | (1 lkind (sync ...)) | (2 id typ shape) | (3 id) *)
+Definition op_of (s : sx) : sop :=
   let a n := sx_get_n (sx_nth s n) in
   match a 0%nat with
-  | 0 => AppRequest (akind_of (a 1%nat)) (sx_get_bool (sx_nth s 2)) (sx_get_bool (sx_nth s 3))
-                    (mkretry (sx_get_bool (sx_nth s 4)) (sx_get_bool (sx_nth s 5)) (N.to_nat (a 6%nat)))
-  | 1 => LibRequest (lkind_of (a 1%nat))
-  | 2 => Deliver (a 1%nat) (ityp_of (a 2%nat)) (shape_of_n (a 3%nat))
-  | _ => DeliverOther (a 1%nat)
+  | 0 => SApp (akind_of (a 1%nat)) (sx_get_bool (sx_nth s 2)) (sx_get_bool (sx_nth s 3))
+              (mkretry (sx_get_bool (sx_nth s 4)) (sx_get_bool (sx_nth s 5)) (N.to_nat (a 6%nat)))
+              (map ndel_of (sx_get_l (sx_nth s 7)))
+  | 1 => SLib (lkind_of (a 1%nat)) (map ndel_of (sx_get_l (sx_nth s 2)))
+  | 2 => SDeliver (a 1%nat) (ityp_of (a 2%nat)) (shape_of_n (a 3%nat))
+  | _ => SOther (a 1%nat)
   end%N.
 
 Definition sx_keys (r : reg) : sx := SL (map (fun p => SN (fst p)) r).
@@ -69,7 +74,7 @@ Definition sx_state (st : state) : sx :=
 
 Definition exec_with (c : cfg) (arg : sx) : sx :=
   let h := map op_of (sx_get_l arg) in
-  let '(st, evs) := run c init h in
+  let '(st, evs) := srun c init h in
   SL [SL (map (fun ev => SL (map sx_event ev)) evs); sx_state st].
 
 (* arg: (op ...) -> ((per-op (event ...)) (next (app ids) ((layer ids) ...))) with the generated table *)
@@ -92,4 +97,5 @@ Definition run_table (arg : sx) : sx :=
                          SL [SN (layer_code l); sx_bool s; sx_bool e]) all_lkinds);
       sx_bool (strict_reply gen_cfg); sx_bool (strict_iface gen_cfg); sx_bool (cfg_ok gen_cfg);
       SL (map (fun k => sx_bool (kind_ok gen_cfg k)) all_akinds);
-      sx_bool (late_delete gen_cfg); sx_bool (late_delete_iface gen_cfg)].
+      sx_bool (late_delete gen_cfg); sx_bool (late_delete_iface gen_cfg);
+      sx_bool (reg_first gen_cfg); sx_bool (reg_first_iface gen_cfg); sx_bool (all_routed gen_cfg)].
